@@ -15,8 +15,9 @@ import common
 
 SECTIONS = ('options', 'snippets', 'variables')
 KNOWN = [('markup', s) for s in ['html', 'xml', 'xsl', 'jsx', 'pug', 'slim', 'haml', 'vue', 'svelte', 'xhtml']] + \
-        [('stylesheet', s) for s in ['css', 'sass', 'scss', 'less', 'sss', 'stylus']]
-UNKNOWN = [('markup', 'foo'), ('stylesheet', 'bar'), ('markup', 'markdown')]
+        [('stylesheet', s) for s in ['css', 'sass', 'scss', 'less', 'sss', 'stylus']] + \
+        [('stylesheet', 'jsx'), ('markup', 'stylus')]          # a syntax name is a layer of its own under either type
+UNKNOWN = [('markup', 'foo'), ('stylesheet', 'bar'), ('markup', 'markdown'), ('stylesheet', 'foo'), ('markup', 'bar')]
 EXTRA_KEYS = {'options': ['x.custom1', 'x.custom2'], 'snippets': ['zzq', 'zzr'], 'variables': ['myvar', 'myvar2']}
 
 
